@@ -19,6 +19,7 @@
 -/
 import ControlModel.Gen.FailureFacts
 import ControlModel.Proofs.Failure
+import ControlModel.Proofs.FailureRoster
 
 open RoleTree EnvM Failure
 
@@ -1193,4 +1194,218 @@ example :
     s1.stopped = [[0, 1]] ∧ roleStateAt s1.f [0, 0] = .ERROR ∧
     quiescent s2 = true ∧ s2.env.st = .ERROR ∧ s2.stopped = [] := by
   refine ⟨wRunning_live, ?_⟩
+  decide
+
+/-! ## C03: the roster is one table — tasks of other environments and of no environment on the same agent -/
+
+/-- `codeWalk` IS the shape of HandleExecutorFailed / HandleAgentFailed: `updateTaskState("ERROR")`
+    and the parent's `UpdateStatus(INACTIVE)` sit unconditionally (the latter under one `!= nil`
+    test of the parent) in the body of a `range` loop over the snapshot `m.roster.filtered(…)`,
+    and no statement of that body (function literals — the per-task goroutine — not entered)
+    can leave the iteration: every entry of the snapshot gets its body, whatever the other
+    entries are. A walk whose body returns / breaks at some entry makes this theorem false. -/
+theorem C03_lost_walk_is_code :
+    Gen.C03.execWalkPerTask = codeWalk.perTask ∧ Gen.C03.agentWalkPerTask = codeWalk.perTask := by
+  decide
+
+/-- **Seen from one environment, the walk over the roster is `fail` on that environment's own
+    victims** — for every world, kind, snapshot (in every order: the per-task goroutines are
+    unordered) and environment; and entries that are not this environment's — tasks of OTHER
+    environments, tasks WITHOUT a parent role — change nothing for it wherever they stand in the
+    snapshot: before, between or after its own. Hence every theorem of this file about `fail`
+    (they quantify over every victim list) is a theorem about every environment of a world. -/
+theorem C03_roster_walk_is_fail (c : Cfg) (k : Kind) (W : World) (e : Nat) (ts : List (Nat × RTask × Bool)) :
+    (hitAll codeWalk c k W ts).envs[e]? = (W.envs[e]?).map (fun s => fail c k s (victimsFor e ts)) ∧
+    (∀ a x b, ts = a ++ x ++ b → (∀ y ∈ x, y.2.1.owner ≠ some e) →
+      (hitAll codeWalk c k W ts).envs[e]? = (hitAll codeWalk c k W (a ++ b)).envs[e]?) := by
+  refine ⟨hitAll_env c k e ts W, ?_⟩
+  intro a x b hts hx
+  subst hts
+  rw [hitAll_env, hitAll_env]
+  simp only [victimsFor_append, victimsFor_foreign e x hx, List.append_nil]
+
+/-- FULL-STRENGTH statement per environment, parameterised by the walk: every world (any number
+    of environments, any roster), every kind that drives, every snapshot, every environment `e`
+    that is live and has a critical task among the entries of the snapshot, every valid run of
+    internal steps of ALL environments interleaved in any way (premise about a stale value in
+    `e`'s watcher channel as in `C03_critical_to_error_full`): once nothing is enabled in any
+    environment, `e` is in ERROR. TRUE for the code (`C03_roster_critical_to_error_code`), FALSE
+    for a walk that ends at an entry without a parent (`C03_walk_must_cover_every_task`). -/
+def C03_roster_critical_to_error_full (wk : Walk) (c : Cfg) : Prop :=
+  ∀ (W : World) (k : Kind) (ts : List (Nat × RTask × Bool)) (e : Nat) (s : Sys) (ls : List (Nat × Label)),
+    W.envs[e]? = some s → Live s → k.drives s.env.st = true →
+    (∃ i t r, (i, t, r) ∈ ts ∧ t.owner = some e ∧ critLeafAt s.f t.path = true) →
+    wvalid c (hitAll wk c k W ts) ls = true →
+    (s.chan = none ∨ rootHolds c (fail c k s (victimsFor e ts)) (labelsOf e ls) = true) →
+    wquiescent (wrun c (hitAll wk c k W ts) ls) = true →
+    ∃ s', (wrun c (hitAll wk c k W ts) ls).envs[e]? = some s' ∧ s'.env.st = .ERROR
+
+/-- The same with the bounds: after the walk, environment `e` is `fail` on its own victims; in
+    every valid run of the world `e` takes at most `budget` (≤ budget before + 3 per entry of
+    the snapshot + 2) steps; a quiescent world has `e` in ERROR; and a run that brings `e` to
+    rest in ERROR exists (the other environments need not move). -/
+theorem C03_roster_critical_to_error (W : World) (k : Kind) (ts : List (Nat × RTask × Bool)) (e : Nat) (s : Sys)
+    (hs : W.envs[e]? = some s) (hlive : Live s) (hk : k.drives s.env.st = true)
+    (hcrit : ∃ i t r, (i, t, r) ∈ ts ∧ t.owner = some e ∧ critLeafAt s.f t.path = true) :
+    let W1 := hitAll codeWalk codeCfg k W ts
+    W1.envs[e]? = some (fail codeCfg k s (victimsFor e ts)) ∧
+    (∀ ls, wvalid codeCfg W1 ls = true → (labelsOf e ls).length ≤ budget s + 3 * ts.length + 2 ∧
+      ((s.chan = none ∨ rootHolds codeCfg (fail codeCfg k s (victimsFor e ts)) (labelsOf e ls) = true) →
+        wquiescent (wrun codeCfg W1 ls) = true →
+        ∃ s', (wrun codeCfg W1 ls).envs[e]? = some s' ∧ s'.env.st = .ERROR)) ∧
+    (∃ ls s', wvalid codeCfg W1 ls = true ∧ (wrun codeCfg W1 ls).envs[e]? = some s' ∧ quiescent s' = true ∧
+      (s.chan = none → s'.env.st = .ERROR)) := by
+  have h1 : (hitAll codeWalk codeCfg k W ts).envs[e]? = some (fail codeCfg k s (victimsFor e ts)) := by
+    rw [hitAll_env, hs]; rfl
+  obtain ⟨i, t, r, hm, ho, hc⟩ := hcrit
+  have hcrit' : ∃ p r, (p, r) ∈ victimsFor e ts ∧ critLeafAt s.f p = true :=
+    ⟨t.path, r, victimsFor_mem e ts i t r hm ho, hc⟩
+  obtain ⟨hb, hall, hex⟩ := C03_critical_to_error_buffered codeCfg rfl rfl s k (victimsFor e ts) hlive hk hcrit'
+  have hlen := victimsFor_length_le e ts
+  refine ⟨h1, fun ls hv => ?_, ?_⟩
+  · have hv' := wvalid_env codeCfg e ls _ _ h1 hv
+    obtain ⟨hl, herr⟩ := hall (labelsOf e ls) hv'
+    refine ⟨by omega, fun hprem hq => ?_⟩
+    have hrun : (wrun codeCfg (hitAll codeWalk codeCfg k W ts) ls).envs[e]? =
+        some (irun codeCfg (fail codeCfg k s (victimsFor e ts)) (labelsOf e ls)) := by
+      rw [wrun_env, h1]; rfl
+    exact ⟨_, hrun, herr hprem (wquiescent_env _ e _ hrun hq)⟩
+  · obtain ⟨ls, hv, hq⟩ := hex
+    obtain ⟨hwv, hlab⟩ := wvalid_lift codeCfg e ls _ _ h1 hv
+    have hrun : (wrun codeCfg (hitAll codeWalk codeCfg k W ts) (ls.map (fun l => (e, l)))).envs[e]? =
+        some (irun codeCfg (fail codeCfg k s (victimsFor e ts)) ls) := by
+      rw [wrun_env, h1, hlab]; rfl
+    exact ⟨_, _, hwv, hrun, hq, fun hch => ((hall ls hv).2) (Or.inl hch) hq⟩
+
+/-- **Every live environment with a failed critical task goes to ERROR — whatever else is in
+    the roster.** The full-strength statement holds for the walk of the code. -/
+theorem C03_roster_critical_to_error_code : C03_roster_critical_to_error_full codeWalk codeCfg := by
+  intro W k ts e s ls hs hlive hk hcrit hv hprem hq
+  exact ((C03_roster_critical_to_error W k ts e s hs hlive hk hcrit).2.1 ls hv).2 hprem hq
+
+/-- An environment none of whose tasks is in the snapshot is not touched by the failure — under
+    ANY walk — and its part of every later run of the world is what it would have been. -/
+theorem C03_roster_untouched_env (wk : Walk) (c : Cfg) (k : Kind) (W : World) (ts : List (Nat × RTask × Bool)) (e : Nat)
+    (h : ∀ x ∈ ts, x.2.1.owner ≠ some e) :
+    (hitAll wk c k W ts).envs[e]? = W.envs[e]? ∧
+    (∀ ls, (wrun c (hitAll wk c k W ts) ls).envs[e]? = (W.envs[e]?).map (fun s => irun c s (labelsOf e ls))) := by
+  have h1 := hitAll_env_untouched wk c k e ts h W
+  exact ⟨h1, fun ls => by rw [wrun_env, h1]⟩
+
+/-- `fail` on non-critical victims only, kind quiet: nothing but those tasks' own roles changes. -/
+theorem fail_plain_inert (c : Cfg) (k : Kind) (vs : List (List Nat × Bool)) :
+    ∀ s : Sys, (∀ p r, (p, r) ∈ vs → plainLeafAt s.f p = true) → k.quiet s.env.st = true →
+      (fail c k s vs).env = s.env ∧ (fail c k s vs).w = s.w ∧ (fail c k s vs).chan = s.chan ∧
+      (fail c k s vs).inflight = s.inflight ∧ (fail c k s vs).stopReq = s.stopReq ∧ (fail c k s vs).dropped = s.dropped ∧
+      S (fail c k s vs).f = S s.f ∧ (∀ l, enabled (fail c k s vs) l = enabled s l) := by
+  induction vs with
+  | nil => intro s _ _; exact ⟨rfl, rfl, rfl, rfl, rfl, rfl, rfl, fun _ => rfl⟩
+  | cons v vs ih =>
+    intro s hp hq
+    obtain ⟨p, r⟩ := v
+    obtain ⟨a1, a2, a3, a4, a5, a6, a7, a8, _⟩ :=
+      C03_noncritical_inert_partial c s k p r (hp p r (List.mem_cons_self ..)) hq
+    have hp' : ∀ q r', (q, r') ∈ vs → plainLeafAt (failOne c k s p r).f q = true := fun q r' hm => by
+      rw [failOne_plainLeafAt]; exact hp q r' (List.mem_cons_of_mem _ hm)
+    obtain ⟨b1, b2, b3, b4, b5, b6, b7, b8⟩ := ih (failOne c k s p r) hp' (by rw [a1]; exact hq)
+    simp only [fail]
+    exact ⟨b1.trans a1, b2.trans a2, b3.trans a3, b4.trans a4, b5.trans a5, b6.trans a6, b7.trans a7,
+      fun l => (b8 l).trans (a8 l)⟩
+
+/-- **An environment none of whose CRITICAL tasks failed stays where it is**: if the entries of
+    the snapshot that belong to `e` are all non-critical (and the kind queues no STOP), then
+    after the walk `e`'s environment machine, watcher, channel, mutex holder and queued requests
+    are what they were, the fold of its critical leaves is unchanged, exactly the same internal
+    steps are enabled, and an `e` at rest stays at rest: its state can never change as a
+    consequence — whatever happened to the other environments and to the tasks of nobody. -/
+theorem C03_roster_noncritical_inert (c : Cfg) (k : Kind) (W : World) (ts : List (Nat × RTask × Bool)) (e : Nat) (s : Sys)
+    (hs : W.envs[e]? = some s)
+    (hplain : ∀ i t r, (i, t, r) ∈ ts → t.owner = some e → plainLeafAt s.f t.path = true)
+    (hq : k.quiet s.env.st = true) :
+    ∃ s1, (hitAll codeWalk c k W ts).envs[e]? = some s1 ∧
+      s1.env = s.env ∧ s1.w = s.w ∧ s1.chan = s.chan ∧ s1.inflight = s.inflight ∧ s1.stopReq = s.stopReq ∧
+      S s1.f = S s.f ∧ (∀ l, enabled s1 l = enabled s l) ∧ quiescent s1 = quiescent s := by
+  have hp : ∀ p r, (p, r) ∈ victimsFor e ts → plainLeafAt s.f p = true := fun p r hm => by
+    obtain ⟨i, t, h1, h2, h3⟩ := victimsFor_mem_inv e ts p r hm
+    rw [← h3]; exact hplain i t r h1 h2
+  obtain ⟨b1, b2, b3, b4, b5, _, b7, b8⟩ := fail_plain_inert c k (victimsFor e ts) s hp hq
+  refine ⟨fail c k s (victimsFor e ts), by rw [hitAll_env, hs]; rfl, b1, b2, b3, b4, b5, b7, b8, ?_⟩
+  simp only [quiescent, b8]
+
+/-- What the per-task body does to an entry WITHOUT a parent role: no environment is touched;
+    the entry's own state/status change as `looseEffect` says (executor / agent lost: ERROR,
+    INACTIVE), owner, parent path, agent and executor of the entry stay; every other entry of
+    the roster is unchanged. -/
+theorem C03_roster_loose_entry (c : Cfg) (k : Kind) (W : World) (i : Nat) (t : RTask) (r : Bool) (h : t.owner = none) :
+    (hit c k W i t r).envs = W.envs ∧
+    (hit c k W i t r).roster[i]? = (W.roster[i]?).map (fun t' => t'.hitLoose k) ∧
+    (∀ j, j ≠ i → (hit c k W i t r).roster[j]? = W.roster[j]?) ∧
+    (∀ t' : RTask, (t'.hitLoose k).owner = t'.owner ∧ (t'.hitLoose k).path = t'.path ∧
+      (t'.hitLoose k).agent = t'.agent ∧ (t'.hitLoose k).exec = t'.exec) ∧
+    (∀ t' : RTask, (k = .EXEC ∨ k = .EXEC0 ∨ k = .AGENT ∨ k = .AGENT0) →
+      (t'.hitLoose k).st = .ERROR ∧ (t'.hitLoose k).su = .INACTIVE) := by
+  refine ⟨hit_loose_envs c k W i t r h, ?_, ?_, fun t' => ⟨rfl, rfl, rfl, rfl⟩, ?_⟩
+  · unfold hit
+    simp only [h]
+    cases hr : W.roster[i]? with
+    | none => simp [hr]
+    | some t' =>
+      have hlt : i < W.roster.length := by
+        rcases Nat.lt_or_ge i W.roster.length with h1 | h1
+        · exact h1
+        · rw [List.getElem?_eq_none h1] at hr; cases hr
+      simp [List.getElem?_set_self hlt]
+  · intro j hj
+    unfold hit
+    simp only [h]
+    split
+    · simp [List.getElem?_set_ne (Ne.symm hj)]
+    · rfl
+  · intro t' hk
+    rcases hk with hk | hk | hk | hk <;> subst hk <;> exact ⟨rfl, rfl⟩
+
+/-- Two environments on one agent (each: a critical and a non-critical task) and two tasks of
+    nobody, one older than everything, one younger. -/
+def wShared : World :=
+  { envs := [wConfigured, wRunning],
+    roster := [{ owner := none, agent := 1, exec := 1 },
+               { owner := some 0, path := [0, 0], agent := 1, exec := 1 }, { owner := some 0, path := [0, 1], agent := 2, exec := 2 },
+               { owner := some 1, path := [0, 0], agent := 1, exec := 1 }, { owner := some 1, path := [0, 1], agent := 1, exec := 1 },
+               { owner := none, agent := 1, exec := 1 }] }
+
+/-- **The walk must cover every entry**: with a walk that ends at the first entry without a
+    parent role, the agent of a critical task is lost, the older task of nobody stands before
+    it in the roster — and nothing ever happens: no internal step is enabled, the environment
+    keeps reporting CONFIGURED with its critical task dead. (That entry itself was marked
+    ERROR / INACTIVE; the walk of the code brings both environments to ERROR: example below.) -/
+theorem C03_walk_must_cover_every_task : ¬ C03_roster_critical_to_error_full stoppingWalk codeCfg := by
+  intro h
+  obtain ⟨s', h1, h2⟩ := h wShared .AGENT0 ((affected (.agent 1) wShared.roster).map (fun x => (x.1, x.2, true))) 0 wConfigured []
+    rfl wConfigured_live (by decide) ⟨1, { owner := some 0, path := [0, 0], agent := 1, exec := 1 }, true, by decide, rfl, by decide⟩
+    (by decide) (Or.inl rfl) (by decide)
+  have h0 : (wrun codeCfg (hitAll stoppingWalk codeCfg .AGENT0 wShared
+      ((affected (.agent 1) wShared.roster).map (fun x => (x.1, x.2, true)))) []).envs[0]? = some wConfigured := rfl
+  rw [h0] at h1
+  cases h1
+  revert h2; decide
+
+/-- Non-vacuity of the roster theorems, and the picture the harness sees: agent 1 of `wShared` is
+    lost. Snapshot = five entries (both tasks of nobody, the critical task of environment 0, both
+    tasks of environment 1). Walk of the code, then every environment under the wall-clock
+    schedule: both environments in ERROR (the RUNNING one with both stamps), environment 0's
+    task on the other agent untouched, both tasks of nobody ERROR / INACTIVE. The stopping walk
+    marks the first entry and leaves everything else as it was. -/
+example :
+    let ts := (affected (.agent 1) wShared.roster).map (fun x => (x.1, x.2, true))
+    let W1 := wsettle codeCfg 16 (worldFail codeWalk codeCfg .AGENT0 wShared (.agent 1))
+    let W2 := worldFail stoppingWalk codeCfg .AGENT0 wShared (.agent 1)
+    ts.map (·.1) = [0, 1, 3, 4, 5] ∧
+    victimsFor 0 ts = [([0, 0], true)] ∧ victimsFor 1 ts = [([0, 0], true), ([0, 1], true)] ∧
+    wquiescent W1 = true ∧ W1.envs.map (·.env.st) = [.ERROR, .ERROR] ∧
+    W1.envs.map (fun s => (leaves s.f).map (·.2.1)) = [[.ERROR, .CONFIGURED], [.ERROR, .ERROR]] ∧
+    ((W1.envs.drop 1).map (fun s => decide (s.env.vars.soeor ≠ .empty) && decide (s.env.vars.eoeor ≠ .empty))) = [true] ∧
+    W1.roster.map (fun t => (t.st, t.su)) = [(.ERROR, .INACTIVE), (.STANDBY, .ACTIVE), (.STANDBY, .ACTIVE), (.STANDBY, .ACTIVE),
+      (.STANDBY, .ACTIVE), (.ERROR, .INACTIVE)] ∧
+    wquiescent W2 = true ∧ W2.envs.map (·.env.st) = [.CONFIGURED, .RUNNING] ∧
+    W2.roster.map (fun t => t.st) = [.ERROR, .STANDBY, .STANDBY, .STANDBY, .STANDBY, .STANDBY] := by
   decide
